@@ -1,5 +1,6 @@
 import Thanos.Common.Parse
 import Thanos.Model.Planner
+import Thanos.Model.CompactProto
 /-
   Line-protocol driver of the `compact` family (C29 C30 C34).
   One request per line, one answer per line; every line is self-contained.
@@ -12,6 +13,13 @@ import Thanos.Model.Planner
     plan.size <ranges ,> <excl ids ,> <metas> <limit> <totalMax>   -> ok <plan ids> <marked ids, sorted, unique> | panic <marked>
     plan.vert <ranges ,> <excl ids ,> <metas> <limit> <totalMax>   -> same as plan.size
         (limit = int64(float64(totalMax)*0.85) is computed by the Go side — float semantics are an input)
+
+  C34 / C29 (protocol): one op is a whole trace
+    cp.run <deleteDelay> <ignoreDelay> <lag> <gateways> <actions `,`-joined>
+      action = s (ship) | c:<id+id+…> (compact) | m:<b>:<r> (mark source b of result r) | g (garbage-collect all
+               duplicates) | x (clean all blocks marked long enough ago) | y:<g> (gateway g syncs) | t:<d> (tick)
+      -> per action, `;`-joined:  <ok|no>/<unmarked ids>/<marked ids>/<loaded ids of gateway 0>|<of gateway 1>|…
+      (a disabled action answers `no` and leaves the state unchanged)
 -/
 open Thanos Thanos.Parse
 
@@ -54,6 +62,65 @@ def showSize : SizeOutcome → String
   | .panic mk => s!"panic {showNats "," (sortUniq mk)}"
   | .outOfFuel => "fuel"
 
+/-! ### protocol traces (C34, C29) -/
+section Proto
+open Thanos.CompactProto
+
+/-- the tie rule of DefaultDeduplicateFilter's sort as the code has it now (see `Props/C34.lean`,
+    obligation `C34_fact_tie`) -/
+def currentLevelTie : Bool := true
+
+def parseAction (s : String) : Option (List String) := some (splitChar ':' s)
+
+def digest (s : State) : String :=
+  let un := (s.blocks.filter (·.mark.isNone)).map (·.id)
+  let mk := (s.blocks.filter (·.mark.isSome)).map (·.id)
+  let gws := s.gws.map (fun g => showNats "+" (sortUniq g.loaded))
+  s!"{showNats "+" (sortUniq un)}/{showNats "+" (sortUniq mk)}/{if gws.isEmpty then "-" else "|".intercalate gws}"
+
+def gcAll (P : Params) (s : State) : State :=
+  let ds := (duplicates P.levelTie (P.deleteDelay / P.divisor) s.now s.blocks).filter (·.mark.isNone)
+  ds.foldl (fun st b => match step P st (.gc b.id) with | some st' => st' | none => st) s
+
+def cleanAll (P : Params) (s : State) : State :=
+  s.blocks.foldl (fun st b => match step P st (.clean b.id) with | some st' => st' | none => st) s
+
+/-- one action token; `none` = malformed -/
+def doAction (P : Params) (s : State) (tok : String) : Option (Bool × State) :=
+  match splitChar ':' tok with
+  | ["s"] => (step P s .ship).map (fun s' => (true, s'))
+  | ["c", ids] =>
+    match parseNats? '+' ids with
+    | some ids => some (match step P s (.compact ids) with | some s' => (true, s') | none => (false, s))
+    | none => none
+  | ["m", b, r] =>
+    match parseNat? b, parseNat? r with
+    | some b, some r => some (match step P s (.markSource b r) with | some s' => (true, s') | none => (false, s))
+    | _, _ => none
+  | ["g"] => some (true, gcAll P s)
+  | ["x"] => some (true, cleanAll P s)
+  | ["y", g] =>
+    match parseNat? g with
+    | some g => some (match step P s (.sync g) with | some s' => (true, s') | none => (false, s))
+    | none => none
+  | ["t", d] =>
+    match parseNat? d with
+    | some d => some (match step P s (.tick d) with | some s' => (true, s') | none => (false, s))
+    | none => none
+  | _ => none
+
+def runTrace (P : Params) : State → List String → Option (List String)
+  | _, [] => some []
+  | s, t :: ts =>
+    match doAction P s t with
+    | none => none
+    | some (ok, s') =>
+      match runTrace P s' ts with
+      | none => none
+      | some rest => some (s!"{if ok then "ok" else "no"}/{digest s'}" :: rest)
+
+end Proto
+
 def handle : List String → String
   | ["plan.one", rs, ex, ms] =>
     match parseInts? ',' rs, parseNats? ',' ex, parseMetas ms with
@@ -79,6 +146,14 @@ def handle : List String → String
     match parseInts? ',' rs, parseNats? ',' ex, parseMetas ms, parseInt? lim with
     | some rs, some ex, some ms, some lim =>
       showSize (vertPlan rs lim (exclOf ex) (ms.length + 1) [] [] ms)
+    | _, _, _, _ => "bad-op"
+  | ["cp.run", dd, ig, lag, k, acts] =>
+    match parseNat? dd, parseNat? ig, parseNat? lag, parseNat? k with
+    | some dd, some ig, some lag, some k =>
+      let P : CompactProto.Params := { deleteDelay := dd, divisor := 2, ignoreDelay := ig, lag := lag, levelTie := currentLevelTie }
+      match runTrace P (CompactProto.init k) (listOf ',' acts) with
+      | some outs => joinWith ";" outs
+      | none => "bad-op"
     | _, _, _, _ => "bad-op"
   | _ => "bad-op"
 
